@@ -5,13 +5,17 @@ CONSTANTS Depth,
           Mode      \* "all": every action with equal weight; "live": the life of cursors - only cursor statements and the
                     \* statements that change what a cursor could see, and no step that just fails (uniform walks spend
                     \* nine steps of ten on cursors that are not declared or not open)
-VARIABLE hist
-GenInit == Init /\ hist = <<[act |-> "init", tbl |-> tbl]>>
+VARIABLES hist, done
+GenInit == Init /\ hist = <<[act |-> "init", tbl |-> tbl]>> /\ done = FALSE
 LiveActs == {"declare", "open", "close", "fetch", "status", "whilein", "insert", "delete", "replace", "update", "dispose"}
-GenNext == /\ Len(hist) <= Depth
-           /\ \E a \in Actions : /\ (Mode = "live" => a.act \in LiveActs)
-                                 /\ Do(a)
-                                 /\ (Mode = "live" => out'.k # "err")
-                                 /\ hist' = Append(hist, [a |-> a, exp |-> out'])
-Emit == (Len(hist) = Depth + 1) => PrintT(<<"TRACE", ToJson(hist)>>)
+\* (the last step only marks the behaviour as complete, so that every emitted behaviour is a walk of its own - see TxnGen)
+GenNext == \/ /\ Len(hist) <= Depth /\ ~done
+              /\ \E a \in Actions : /\ (Mode = "live" => a.act \in LiveActs)
+                                    /\ Do(a)
+                                    /\ (Mode = "live" => out'.k # "err")
+                                    /\ hist' = Append(hist, [a |-> a, exp |-> out'])
+              /\ UNCHANGED done
+           \/ /\ Len(hist) = Depth + 1 /\ ~done
+              /\ done' = TRUE /\ UNCHANGED <<vars, hist>>
+Emit == done => PrintT(<<"TRACE", ToJson(hist)>>)
 =============================================================================
